@@ -63,6 +63,8 @@ pub open spec fn block_applied<C: ContentAddrStore>(s: UnsealedState<C>, block: 
         next_rel(s, n) && txx.no_duplicates() && txx.to_set() == block.transactions@ && #[trigger] batch_result(n, txx, mid) && seal_rel(mid, block.proposer_action, r)
 }
 // ---- C08 restart
+/// invariant of sealed states: sealing with a proposer action pays out all pending tips
+pub open spec fn sealed_ok<C: ContentAddrStore>(s: SealedState<C>) -> bool { s.1 is Some ==> s.0.tips.0 == 0 }
 pub open spec fn txs_keyed(m: Map<TxHash, Transaction>) -> bool { forall|h: TxHash| m.contains_key(h) ==> spec_txhash(#[trigger] m[h]) == h }
 /// `blk` is the block a sealed state `s` serialises to
 pub open spec fn is_block_of<C: ContentAddrStore>(s: SealedState<C>, blk: Block) -> bool {
